@@ -1,6 +1,7 @@
 (** C12 — the specification, transcribed from the property statement.  Nothing in
     this file calls a function of the model of heimdall's code (C12/Model.v,
-    C12/Stack.v); it uses their input TYPES only (error trees, respond
+    C12/Stack.v) except the range test [valid_code] ("is an HTTP status code": 100..999) and the
+    equality test [media_eqb]; otherwise it uses their input TYPES only (error trees, respond
     configuration, mechanisms, handler lists) and Go's errors.Is/As reading
     "some leaf of the tree" ([Base.ErrChain.leaves]).
 
